@@ -255,6 +255,8 @@ fn emit_nodes_with_continuation(
     context: &EmitContext,
     fallback_continuation: Option<&str>,
 ) -> Result<EmittedContainer, CompilerError> {
+    // Every container that is emitted inside another one comes through here.
+    let _level = crate::nesting::enter()?;
     let mut out = EmittedContainer::default();
     let mut next_choice_index = 0;
 
